@@ -433,6 +433,12 @@ class C06(Check):
             for am in alts:
                 run(variant(p, message=am.hex(), signature=w.sign(signer_key, tweak, am).hex()),
                     "genuine-other-message")
+            # a tweak that is declared but void, the element signed under the untweaked key
+            plain_sig = w.sign(signer_key, None, msg).hex()
+            for void in ("", " ", None, 0, False, [], {}, "0", "zz"):
+                d = variant(p, signature=plain_sig)
+                d["elements"][p]["tweak"] = void
+                self.evaluate(d, root, "void-tweak", stats, vs)
             # genuinely signed messages of every length around header + key: the key (and the value) is
             # what the documented slice of the WHOLE message gives, whatever follows or is missing
             lens = range(2, 132) if self.thorough else (2, 33, 34, 64, 65, 66, 67, 68, 70, 73, 74, 99, 100, 131)
@@ -546,8 +552,33 @@ class C06(Check):
     def evaluate(self, doc, root, label, stats, vs):
         stats.evaluations += 1
         reason = R.v1_structure(doc)
-        got = self.impl.run_v1(doc, root.hex(), guarded=reason is not None)
         case = {"kind": "one", "doc": doc, "root": root.hex(), "label": label}
+        bad = R.v1_malformed_field(doc)
+        if bad is not None:
+            # a declared field that is not a non-empty hex string: no certificate.  Refusing the file
+            # and reporting the targets that depend on the element invalid are both fine; reporting
+            # one of them valid is not
+            got = self.impl.run_v1(doc, root.hex(), guarded=True)
+            stats.observe((label, "malformed", bad[1], got[0]))
+            if got[0] == "result" and reason is None and isinstance(got[1], Mapping):
+                els = R.v1_index(doc)
+                for t in doc["targets"]:
+                    cur, on_path = t, False
+                    while True:
+                        on_path = on_path or cur == bad[0]
+                        if els[cur]["signed_by"] == "root":
+                            break
+                        cur = els[cur]["signed_by"]
+                    g = verdict(got[1].get(t))
+                    if on_path and g is not None and g[0] == "ok":
+                        vs.append(Violation("C06", "C06:malformed-field-accepted:%s:%s" % (bad[1], label), case,
+                                            None, {"result": got[1]}, {"error": "malformed %s of %s" % (bad[1], bad[0])},
+                                            "malformed field"))
+            elif got[0] == "budget":
+                vs.append(Violation("C06", "C06:load-does-not-return:malformed-" + bad[1], case, None,
+                                    {"budget": got[1]}, {"error": "malformed"}, "structure"))
+            return None
+        got = self.impl.run_v1(doc, root.hex(), guarded=reason is not None)
         if got[0] == "budget":
             with self.hangs.get_lock():
                 self.hangs.value += 1
